@@ -116,6 +116,20 @@ func init() {
 				"state.Config.Base.AllowedAuthBackendsForCerts": {"allowedForCerts", "[]string"},
 				"authData.AuthType":                             {"authType", "int"}},
 			retLean: "Bool"},
+		// C06 / C04: the session-cookie tail of checkAuth — verify, expiry, mask, each refusal one 401
+		glTarget{pkg: "cmd/keymasterd", name: "checkAuthCookieTail", group: "Auth", natInts: true,
+			in: "checkAuth", blockFrom: "info, err := state.getAuthInfoFromAuthJWT(authCookie.Value)",
+			binders:   "(ext : KM.GoTypes.CookieExt) (cookieValue : List Char) (requiredAuthType : Nat)",
+			traceLean: "KM.GoTypes.HttpEffect",
+			paths: map[string][2]string{
+				"authCookie.Value":                  {"cookieValue", "string"},
+				"requiredAuthType":                  {"requiredAuthType", "int"},
+				"info.ExpiresAt.Before(time.Now())": {"(ext.expired info)", "bool"},
+				"http.StatusUnauthorized":           {"(401 : Nat)", "int"}},
+			externs: map[string]glExtern{
+				"state.getAuthInfoFromAuthJWT": {lean: "ext.getAuthInfo", ret: []string{"authInfo", "error"}},
+				"state.writeFailureResponse":   {lean: "ext.unit", ret: []string{}, args: []int{2}, effect: "KM.GoTypes.HttpEffect.fail"}},
+			retLean: "(Option KM.GoTypes.authInfo × Option KM.Go.Err) × List KM.GoTypes.HttpEffect"},
 		// C01 / C06
 		glTarget{pkg: "cmd/keymasterd", name: "getRequiredWebUIAuthLevel", group: "Auth",
 			binders: "(allowedWebUI : List (List Char))", natInts: true,
